@@ -86,8 +86,9 @@ type DDLog struct {
 
 // Datadog metrics
 type DDPoint struct {
-	TsS int64   `json:"ts"`
-	Val float64 `json:"val"`
+	TsS  int64   `json:"ts"`
+	Val  float64 `json:"val"`
+	NoTs bool    `json:"no_ts,omitempty"` // a leading point written without a timestamp: the clock reading of the points array
 }
 type DDSeries struct {
 	Metric    *Str      `json:"metric,omitempty"`
